@@ -258,6 +258,39 @@ def run(ctx):
                 # the parameter list is edited and the module reloaded in the same process: the same checks on the new version
                 res.count("functions_edited_and_reloaded")
                 process(fi, edited(params), modname, rewrite=True)
+    # arguments written with a unary operator (+1, -1, ~1, not 3): expressions for the parser, not literals - each call must get
+    # the value plain Python computes, and calls with different values must not share a signature
+    with ws.Workspace("c13u") as w:
+        exprs = ["+1", "-1", "~1", "-2", "not 3", "+0.5", "-0.5", "-(1)", "1", "2", "+2", "~0", "not 0", "-0.5 + 1"]
+        src = "import dds\n\ndef f(a, b=0):\n    return repr((a, b))\n\n"
+        for i, e in enumerate(exprs):
+            src += "def u_top_%d():\n    return dds.keep('/u%d', f, %s)\n\n" % (i, i, e)
+            src += "def k_top_%d():\n    return dds.keep('/k%d', f, 7, b=%s)\n\n" % (i, i, e)
+        mod = w.write_module(w.unique("c13u"), src)
+        seen_sig = {}
+        for i, e in enumerate(exprs):
+            val = eval(e)
+            for kind, want in (("u", repr((val, 0))), ("k", repr((7, val)))):
+                store.synced.clear()
+                try:
+                    got = dds.eval(getattr(mod, "%s_top_%d" % (kind, i)))
+                    sig = store.synced[-1]["/%s%d" % (kind, i)]
+                except BaseException as ex:
+                    got, sig = "EXC:" + type(ex).__name__ + ":" + str(ex)[:80], None
+                    ws.reset_dds_state()
+                res.evaluations += 1
+                res.nontrivial("unary %s %s" % (kind, e))
+                call = "f(%s)" % e if kind == "u" else "f(7, b=%s)" % e
+                if got != want:
+                    res.violations.append({"what": "a kept call with the argument expression %s returned %r, plain execution gives %r" % (e, got, want),
+                                           "input": {"function": "def f(a, b=0): return repr((a, b))", "call": call}, "kf": None})
+                    continue
+                key = (kind, doc_key(val) if not isinstance(val, float) else ("float", val))
+                prev = seen_sig.get((kind, sig))
+                if prev is not None and prev[0] != key:
+                    res.violations.append({"what": "two different bindings share one signature",
+                                           "input": {"function": "def f(a, b=0): return repr((a, b))", "call_1": prev[1], "call_2": call, "signature": sig}, "kf": None})
+                seen_sig.setdefault((kind, sig), (key, call))
     # unsupported parameter kinds (unit level only)
     ns = {}
     exec("def g1(a, *rest):\n    return 1\ndef g2(a, *, k=1):\n    return 1\ndef g3(a, **kw):\n    return 1\n", ns)
